@@ -584,8 +584,12 @@ def announce_operational(
         await reactor.processes.answer_done(service)
 
     # Check for valid operational subcommand
-    words = command.split() + ['be', 'safe']
-    if len(words) >= 2 and words[1].lower() not in (
+    # "operational asm ..." when the action is passed separately, "announce operational asm ..." in the legacy
+    # form the v4 `neighbor <selector> announce operational ...` dispatcher still hands over: tested at the
+    # wrong position, that form was answered done and never executed
+    words = command.split() + ['be', 'safe', 'always']
+    subcommand = words[1] if action else words[2]
+    if subcommand.lower() not in (
         'asm',
         'adm',
         'rpcq',
